@@ -89,6 +89,9 @@ def unrelated(kind, tid=1):
         return E.ev('TRACE_DATA_THREAD_TERMINATE', 0, (tid, 0, 0, 0), tid=tid)
     if kind == 'L':
         return E.ev('TRACE_LOST_EVENTS', 0, (0, 0, 0, 0), tid=tid)
+    if kind == 'Q':
+        # a complete one-record kernel string of ANOTHER kind (START|END) written by the same thread
+        return E.ev('TRACE_STRING_NEWTHREAD', 3, tid=tid, data=b'intruder'.ljust(32, b'\0'))
     if kind == 'K':
         return E.ev('MACH_vm_page_release', 0, (1, 2, 3, 4), tid=tid)
     if kind == 'U':
@@ -104,7 +107,7 @@ def gap_codes():
     global _GAP_CODES
     if _GAP_CODES is None:
         _GAP_CODES = {E.n2i(n) for n in ('BSC_getpid', 'MACH_WAIT', 'TRACE_DATA_NEWTHREAD', 'TRACE_DATA_THREAD_TERMINATE', 'TRACE_LOST_EVENTS',
-                                          'MACH_vm_page_release', 'VFS_LOOKUP_DONE', 'BSC_getppid')} | {0xdead0000}
+                                          'MACH_vm_page_release', 'VFS_LOOKUP_DONE', 'BSC_getppid', 'TRACE_STRING_NEWTHREAD')} | {0xdead0000}
     return _GAP_CODES
 
 
@@ -130,6 +133,9 @@ def with_gaps(evs, gap):
     if gap is None or len(evs) < 2:
         return evs
     tid = evs[0].tid
+    if gap == 'straddle':
+        # an unrelated call of the thread that begins BEFORE the text and ends between its records (sequences overlap freely)
+        return [E.ev('BSC_getpid', 1, (1, 2, 3, 4), tid=tid), evs[0], E.ev('BSC_getpid', 2, (0, 7, 0, 0), tid=tid)] + list(evs[1:])
     out = [evs[0]]
     for e in evs[1:]:
         if gap == 'pair':
@@ -324,7 +330,7 @@ class C08(Check):
                 for pattern in range(NPAT):
                     first = {'lookup': 24, 'gstring': 16}.get(kind, 32)
                     nrec = 1 if L <= first else 1 + -(-(L - first) // 32)
-                    for gap in ((None, 'stale') if nrec < 2 else (None, 'K', 'U', 'W', 'T', 'D', 'X', 'L', 'S', 'pair', 'stale')):
+                    for gap in ((None, 'stale') if nrec < 2 else (None, 'K', 'U', 'W', 'T', 'D', 'X', 'L', 'S', 'Q', 'pair', 'straddle', 'stale')):
                         try:
                             bad = judge_standalone(kind, L, pattern, gap)
                         except Exception as ex:
